@@ -42,6 +42,9 @@ func propC10(c *Ctx, r *Report) {
 	r.Clauses = append(r.Clauses, "no unmemoised re-lowering (E9): a function of the lowerer that hands an initialiser kept as syntax (an entry of a map[string]parser.Expr field, looked up by name) to a lowering call at each use of the name also memoises the lowered result under that name - otherwise a chain of n declarations costs 2^n lowerings")
 	c.runRelower(r, "time.relower")
 	r.floor("time.relower", 1)
+	r.Clauses = append(r.Clauses, forHeaderClause+" - a break / continue / return in the update clause reached the SPIR-V backend with no open block (nil dereference)")
+	c.runForHeader(r, "parse.forheader", "wgsl/internal/parser")
+	r.floor("parse.forheader", 8)
 	r.Clauses = append(r.Clauses, "parser loops (E9): every loop of the lexer/parser that keeps consuming tokens until some token kind is seen (or has no condition) also tests for the end of input, or repeats only after a specific token was matched - otherwise a truncated source makes the parser spin forever")
 	c.runParserLoops(r, "abort.parser-loop")
 	r.floor("parser.open-loops", 10)
